@@ -50,7 +50,7 @@ ASSUMPTIONS = [
     'Gaussian priors are driven on u in [0.01, 0.99] (u = 0 / 1 map to +-inf, no atmosphere)',
 ]
 _Q = {'sequence': 110, 'exact': 14}
-_T = {'sequence': 1200, 'exact': 120}
+_T = {'sequence': 700, 'exact': 70}
 BUDGET = {
     'quick': [dict(name='boundscheck', env={'NUMBA_BOUNDSCHECK': '1'}, shards=6, cases=_Q)],
     'thorough': [dict(name='boundscheck', env={'NUMBA_BOUNDSCHECK': '1'}, shards=16, cases=_T)],
